@@ -239,7 +239,7 @@ def regen_facts():
         return [("build", "go build gofacts", out[-800:])]
     facts = os.path.join(LEAN, "GfsGen", "Facts.lean")
     new = facts + f".new.{os.getpid()}"
-    rc, out = sh([os.path.join(BUILD, "gofacts"), REPO, new])
+    rc, out = sh([os.path.join(BUILD, "gofacts"), REPO, new, os.path.join(BUILD, "fingerprints.json")])
     if rc != 0:
         if os.path.exists(facts):
             os.unlink(facts)
@@ -250,6 +250,17 @@ def regen_facts():
     else:
         os.unlink(new)
     return []
+
+
+def changed_decls(pid):
+    """names of the declarations of /repo whose fingerprint differs from the recorded one"""
+    try:
+        now = json.load(open(os.path.join(BUILD, "fingerprints.json"))).get(pid, {})
+        exp = json.load(open(os.path.join(LEAN, "GfsModel", "ExpectedSrc.json"))).get(pid, {})
+    except Exception as ex:
+        return [f"(cannot read fingerprints: {ex})"]
+    out = [k for k in sorted(set(now) | set(exp)) if now.get(k) != exp.get(k)]
+    return [k + (" (new)" if k not in exp else (" (gone)" if k not in now else "")) for k in out][:40]
 
 
 def build_clis(a, rundir):
@@ -402,7 +413,10 @@ def main(argv):
     lean_ok = ok
     if not ok:
         log(out[-3000:])
-        broken.append(("proof", f"lake build GfsProps.{pid}", out[-1500:]))
+        detail = out[-1500:]
+        if f"{pid}_source" in out or "sourceDigest" in out:
+            detail = "changed declarations: " + ", ".join(changed_decls(pid)) + "\n" + detail
+        broken.append(("proof", f"lake build GfsProps.{pid}", detail))
     # 2. audit ----------------------------------------------------------------
     theorems = []
     discharged = 0
